@@ -163,7 +163,7 @@ CHECKS = {
                      "budget or configuration space is exhausted, and must give identical suggestions, decisions and exceptions.",
                 note="Bounded: W<=3, T<=6, h=3 (quick) / 4 (thorough), 2 for GP searchers with a fitted surrogate; crash points "
                      "per configuration capped (reported); only the scheduler is dill-pickled, not the whole Tuner; float "
-                     "hyperparameters of suggestions compared to 1e-11 relative (GP parameter round trip is exact to an ulp), rest exact.",
+                     "hyperparameters of suggestions compared to 1e-7 relative (GP parameter round trip is exact to an ulp), rest exact.",
                 technique="explicit-state model checking over crash points: BFS over event histories, restored twin vs uninterrupted twin on every bounded continuation"),
 }
 
